@@ -273,9 +273,14 @@ def rand_image(rng, sc, g):
 
 
 # ------------------------------------------------------------------ the project generator
-def gen_scenario(rng, n_tags=None, big_ids=0.08, sized=None, programs=True, policies=True):
-    """sized: optional list of (type name, element count) of extra 1-dim array tags (size sweeps)"""
+def gen_scenario(rng, n_tags=None, big_ids=None, sized=None, programs=True, policies=True):
+    """big_ids: probability that a tag gets a symbol instance id above 65535 (default: 0.15 in one
+    scenario out of six, else 0; recorded in sc.note["big_ids"]);
+    sized: optional list of (type name, element count) of extra 1-dim array tags (size sweeps)"""
     sc = Scenario()
+    if big_ids is None:
+        big_ids = 0.15 if rng.random() < 1 / 6 else 0
+    sc.note["big_ids"] = big_ids
     namer = Namer(rng)
     handles = rng.sample(range(1, 65536), 64)
     user_ids = rng.sample(range(0x100, 0xF00), 24)
